@@ -28,7 +28,7 @@ def findings():
 
 def seeded():
     out = ["| seeded change | needs to manifest | result |", "|---|---|---|"]
-    det = tot = 0
+    det = tot = neutral = 0
     for d in sorted(glob.glob(os.path.join(ROOT, "seeded", "*"))):
         mf = os.path.join(d, "meta.json")
         if not os.path.exists(mf): continue
@@ -48,10 +48,15 @@ def seeded():
         if len(needs) > 260: needs = needs[:257] + "…"
         summ = m.get("summary", "")
         r = ("**caught** by " + by) if detected else "**missed**"
+        nz = m.get("neutralised_by_fix")
+        if nz:
+            neutral += 1
+            note = "since /repo `%s` the change no longer breaks the property (the seeder's own demonstration passes with the patch applied)" % nz.get("fix", "").split()[0]
+            r = (r + " at the time; " + note) if detected else ("**neutralised**: " + note + "; missed by the check before that")
         if hist: r += " — " + hist
         elif late: r += " — missed by the check as first evaluated (exit 0); caught after the check was strengthened for the class of the miss (final evaluation, see notes)"
         out.append(f"| `{m['id']}` {summ} | {needs} | {r} |")
-    return f"{tot} confirmed seeded changes, {det} caught by the registered quick checks.\n\n" + "\n".join(out) + "\n"
+    return f"{tot} confirmed seeded changes, {det} caught by the registered quick checks; {neutral} no longer break their property since a later `fix:` commit (marked neutralised).\n\n" + "\n".join(out) + "\n"
 
 def checks():
     ns = {}
